@@ -1,6 +1,6 @@
 """C15 - loading a delta dump never resolves a global outside the allow-list.
 
-proof:           coq/theories/Pickle/{Vm,PickleProofs}.v, Properties/C15.v
+proof:           coq/theories/Pickle/{Vm,PickleProofs,Bytes,BytesProofs}.v, Properties/C15.v
 correspondence:  (i)  the DECISION of _RestrictedUnpickler.find_class on every
                       (module, attribute) pair of every module loaded in the
                       process (+ synthetic look-alikes), under several
@@ -12,6 +12,9 @@ correspondence:  (i)  the DECISION of _RestrictedUnpickler.find_class on every
                       persistent ids; well-formed and mutated) run through the real
                       pickle_load and through the model VM inside Coq: outcome class,
                       failing name, resolved names in order, decoded value.
+                 (iii) the same on raw BYTES: every program is handed to Coq as its byte string (Pickle/Bytes.v decodes it as
+                      the C unpickler reads it, and as pickletools.genops reads it); dumps of CPython's pickler in all protocols;
+                      mutated byte strings (bit flips, truncations, re-framing, spliced opcodes).
 direct oracle:   independent of the model: find_class never RETURNS for a name whose
                  '{module}.{name}' is not in SAFE_TO_IMPORT | safe_to_import; a lookup of
                  such a name ends the load with ForbiddenModule; the forbidden sentinel
@@ -35,7 +38,10 @@ RULE = ("(i) one case per (loaded module, safe_to_import configuration): all att
         "one global lookup; distinct = distinct (configuration, byte string)")
 TRUSTED = ["CPython's documented contract that every global named by GLOBAL / STACK_GLOBAL / INST / EXT-registry is obtained "
            "through Unpickler.find_class is modelled in Vm.v and exercised by the correspondence programs, not proved",
-           "byte-level decoding of opcode arguments and framing (pickletools.genops / the harness assembler)",
+           "the byte layer Pickle/Bytes.v (opcode bytes, argument decoding, FRAME buffering) is a hand-written model of Modules/_pickle.c, "
+           "tied to it by the byte-level correspondence (every program and >= 1100 mutated byte strings per quick run go to Coq as bytes) and "
+           "cross-checked opcode by opcode against pickletools.genops; number text outside the canonical decimal forms and STRING escapes "
+           "are oracles measured on the real unpickler",
            "calls are symbolic in the model: whether an allowed constructor raises is an oracle (call_ok / build_ok) that the "
            "harness measures by calling the real constructor on the same arguments"]
 ASSUMPTIONS = ["the theorems quantify over every world (allow-list, sys.modules content, call/build oracles, extension registry); "
@@ -48,11 +54,12 @@ ASSUMPTIONS = ["the theorems quantify over every world (allow-list, sys.modules 
 CODE = {o.name: o.code.encode("latin-1") for o in pickletools.opcodes}
 NOARG = {"STOP", "POP", "POP_MARK", "DUP", "MARK", "MEMOIZE", "NONE", "NEWTRUE", "NEWFALSE", "EMPTY_LIST", "EMPTY_DICT",
          "EMPTY_TUPLE", "EMPTY_SET", "APPEND", "APPENDS", "SETITEM", "SETITEMS", "ADDITEMS", "TUPLE", "TUPLE1", "TUPLE2",
-         "TUPLE3", "FROZENSET", "LIST", "DICT", "STACK_GLOBAL", "OBJ", "NEWOBJ", "NEWOBJ_EX", "REDUCE", "BUILD", "BINPERSID"}
+         "TUPLE3", "FROZENSET", "LIST", "DICT", "STACK_GLOBAL", "OBJ", "NEWOBJ", "NEWOBJ_EX", "REDUCE", "BUILD", "BINPERSID",
+         "NEXT_BUFFER", "READONLY_BUFFER"}
 INT_OPS = {"PROTO", "FRAME", "PUT", "BINPUT", "LONG_BINPUT", "GET", "BINGET", "LONG_BINGET", "INT", "BININT", "BININT1",
            "BININT2", "LONG", "LONG1", "LONG4", "EXT1", "EXT2", "EXT4"}
-STR_OPS = {"UNICODE", "BINUNICODE", "SHORT_BINUNICODE", "BINUNICODE8", "PERSID"}
-BYTES_OPS = {"BINBYTES", "SHORT_BINBYTES", "BINBYTES8"}
+STR_OPS = {"UNICODE", "BINUNICODE", "SHORT_BINUNICODE", "BINUNICODE8", "PERSID", "STRING", "BINSTRING", "SHORT_BINSTRING"}
+BYTES_OPS = {"BINBYTES", "SHORT_BINBYTES", "BINBYTES8", "BYTEARRAY8"}
 MODELLED = NOARG | INT_OPS | STR_OPS | BYTES_OPS | {"INTB", "FLOAT", "BINFLOAT", "GLOBAL", "INST"}
 
 
@@ -121,8 +128,14 @@ def assemble(ops):
             out.append(c + struct.pack("<I", len(op[1])) + op[1])
         elif name == "SHORT_BINBYTES":
             out.append(c + struct.pack("<B", len(op[1])) + op[1])
-        elif name == "BINBYTES8":
-            out.append(c + struct.pack("<Q", len(op[1])) + op[1])
+        elif name in ("BINBYTES8", "BYTEARRAY8"):
+            out.append(c + struct.pack("<Q", len(op[1])) + bytes(op[1]))
+        elif name == "STRING":
+            out.append(c + repr(op[1].encode("ascii")).encode("ascii")[1:] + b"\n")
+        elif name == "BINSTRING":
+            out.append(c + struct.pack("<i", len(op[1])) + op[1].encode("ascii"))
+        elif name == "SHORT_BINSTRING":
+            out.append(c + struct.pack("<B", len(op[1])) + op[1].encode("ascii"))
         elif name in ("GLOBAL", "INST"):
             out.append(c + op[1].encode("utf-8") + b"\n" + op[2].encode("utf-8") + b"\n")
         elif name == "PERSID":
@@ -196,6 +209,187 @@ def op_coq(op):
 
 def prog_coq(ops):
     return "[" + "; ".join(op_coq(o) for o in ops) + "]"
+
+
+# ---------------------------------------------------------------------------
+# the byte layer (Pickle/Bytes.v): raw bytes, text-oracle tables, pickletools.genops as a second reader
+# ---------------------------------------------------------------------------
+
+import re as _re
+
+TEXT_OPCODES = b"FILPSVgpci"
+_CANON_INT = _re.compile(rb"0|-?[1-9][0-9]*|00|01")
+_CANON_LONG = _re.compile(rb"(0|-?[1-9][0-9]*)L?")
+_CANON_IDX = _re.compile(rb"[0-9]+")
+_MAXSIZE = 2 ** 63 - 1
+
+
+def coq_bytes(b):
+    return "[" + ";".join(str(x) for x in b) + "]%N"
+
+
+def candidate_lines(data):
+    """Every line the readers can hand to a text decoder: it starts after a text opcode byte, after a newline,
+    or where a frame ends (the C unpickler drops the rest of a frame and calls readline() on the file)."""
+    n = len(data)
+    starts = set()
+    for i, b in enumerate(data):
+        if b in TEXT_OPCODES or b == 10:
+            starts.add(i + 1)
+        elif b == 0x95 and i + 9 <= n:
+            k = int.from_bytes(data[i + 1:i + 9], "little")
+            if i + 9 + k <= n:
+                starts.add(i + 9 + k)
+    lines = set()
+    for p in starts:
+        j = data.find(b"\n", p)
+        if j >= 0 and j - p <= 120:
+            lines.add(bytes(data[p:j]))
+    return lines
+
+
+def _try(fn):
+    try:
+        return True, fn()
+    except BaseException:  # noqa
+        return False, None
+
+
+def c_text_tables(lines):
+    """What CPython's C unpickler makes of number / STRING text outside the forms Bytes.v decodes itself:
+    measured by loading a one-opcode pickle.  -> dict kind -> [(line, value)]"""
+    t = {"int": [], "long": [], "idx": [], "float": [], "string": []}
+    for l in sorted(lines):
+        if not _CANON_INT.fullmatch(l):
+            ok, v = _try(lambda: pickle.loads(b"I" + l + b"\n."))
+            if ok and isinstance(v, int):
+                t["int"].append((l, v))
+        if not _CANON_LONG.fullmatch(l):
+            ok, v = _try(lambda: pickle.loads(b"L" + l + b"\n."))
+            if ok and type(v) is int:
+                t["long"].append((l, v))
+        if not _CANON_IDX.fullmatch(l):
+            # load_get / load_put: PyLong_FromString(s, NULL, 10) on the NUL-terminated line, then PyLong_AsSsize_t
+            ok, v = _try(lambda: int(l.split(b"\0", 1)[0], 10))
+            if ok and abs(v) <= _MAXSIZE:
+                if v >= 0:     # confirm on the real unpickler: PUT v then GET v
+                    ok2, r = _try(lambda: pickle.loads(b"K\x07p" + l + b"\n0g" + str(v).encode() + b"\n."))
+                    if not (ok2 and r == 7):
+                        continue
+                t["idx"].append((l, v))
+        ok, v = _try(lambda: pickle.loads(b"F" + l + b"\n."))
+        if ok and isinstance(v, float):
+            t["float"].append((l, v))
+        if len(l) >= 2 and l[:1] == l[-1:] and l[:1] in (b"'", b'"') and (b"\\" in l or max(l) > 127):
+            ok, v = _try(lambda: pickle.loads(b"S" + l + b"\n."))
+            if ok and type(v) is str:
+                t["string"].append((l, v))
+    return t
+
+
+def g_text_tables(lines):
+    """The same for pickletools' readers (the genops dialect), plus escape-decoded names / persistent ids."""
+    t = {"int": [], "long": [], "idx": [], "float": [], "string": [], "name": []}
+    for l in sorted(lines):
+        f = lambda: io.BytesIO(l + b"\n")  # noqa
+        if not _CANON_INT.fullmatch(l):
+            ok, v = _try(lambda: pickletools.read_decimalnl_short(f()))
+            if ok:
+                t["int"].append((l, v))
+        if not _CANON_LONG.fullmatch(l):
+            ok, v = _try(lambda: pickletools.read_decimalnl_long(f()))
+            if ok:
+                t["long"].append((l, int(v)))
+        if not _CANON_IDX.fullmatch(l):
+            ok, v = _try(lambda: pickletools.read_decimalnl_short(f()))
+            if ok:
+                t["idx"].append((l, int(v)))
+        ok, v = _try(lambda: pickletools.read_floatnl(f()))
+        if ok:
+            t["float"].append((l, v))
+        if len(l) >= 2 and l[:1] == l[-1:] and l[:1] in (b"'", b'"') and (b"\\" in l or max(l) > 127):
+            ok, v = _try(lambda: pickletools.read_stringnl(f()))
+            if ok:
+                t["string"].append((l, v))
+        if b"\\" in l or (l and max(l) > 127):
+            ok, v = _try(lambda: pickletools.read_stringnl_noescape(f()))
+            if ok:
+                t["name"].append((l, v))
+    return t
+
+
+def _coq_table(entries, val):
+    return "[" + "; ".join("(%s, %s)" % (coq_bytes(l), val(v)) for l, v in entries) + "]"
+
+
+def coq_textw(t):
+    return "(table_textw %s %s %s %s %s)" % (
+        _coq_table(t["int"], lambda v: "IRBool %s" % core.coq_bool(v) if isinstance(v, bool) else "IRInt %s" % core.coq_Z(v)),
+        _coq_table(t["long"], core.coq_Z), _coq_table(t["idx"], core.coq_Z),
+        _coq_table(t["float"], fl_coq), _coq_table(t["string"], core.coq_pystr))
+
+
+def coq_c_dialect(data):
+    return "(c_dialect %s)" % coq_textw(c_text_tables(candidate_lines(data)))
+
+
+def coq_g_dialect(data):
+    t = g_text_tables(candidate_lines(data))
+    return "(genops_dialect %s %s)" % (coq_textw(t), _coq_table(t["name"], core.coq_pystr))
+
+
+def genops_obs(data):
+    """["ok" | "raises", opcodes pickletools.genops produced] with arguments in canonical form"""
+    ops = []
+    try:
+        for opc, arg, _pos in pickletools.genops(data):
+            if arg is None:
+                ops.append([opc.name])
+            elif isinstance(arg, bool):
+                ops.append([opc.name, arg])
+            elif isinstance(arg, int):
+                ops.append([opc.name, arg])
+            elif isinstance(arg, float):
+                ops.append([opc.name, fl_canon(arg)])
+            elif isinstance(arg, str):
+                ops.append([opc.name, arg])
+            elif isinstance(arg, (bytes, bytearray)):
+                ops.append([opc.name, bytes(arg).decode("latin-1")])
+            else:
+                raise TypeError("genops argument %r" % (arg,))
+        return ["ok", ops]
+    except Exception:  # noqa: ValueError and its relatives, OverflowError
+        return ["raises", ops]
+
+
+def real_obs(res, with_value):
+    """[class, failing (module, name), resolved names in order, value] of a real load -> (observation, value compared?)"""
+    failing = None
+    if res["calls"] and not res["calls"][-1][2]:     # the exception came out of find_class
+        failing = [res["calls"][-1][0], res["calls"][-1][1]]
+    resolved = [[m, n] for m, n, r in res["calls"] if r]
+    value, wv = None, False
+    if with_value and res["cls"] == "ok":
+        try:
+            value = canon_real(res["result"], res["objs"])
+            wv = True
+        except LookupError:
+            wv = False
+    return [res["cls"], failing, resolved, value if wv else None], wv
+
+
+def bytes_expr(data, world, obs, wv, exact, exc, noskip=None):
+    """One Coq expression for a byte string: [what genops makes of it; the verdict of the machine run on the bytes as
+    the C unpickler reads them, against the observation of the real load; (well-formed streams) no frame byte skipped]
+    -> (expr, expected)"""
+    parts = ["sx_genops %s bs" % coq_g_dialect(data),
+             "sx_bytes_verdict %s %s %s (load_content %s cd bs) (%s)" % (
+                 core.coq_bool(exact), core.coq_bool(wv), core.coq_string(exc or "ok"), world, core.sx(obs))]
+    expected = [genops_obs(data), obs]
+    if noskip is not None:
+        parts.append("sx_bool (negb (snd (bdecode cd bs)))")
+        expected.append(noskip)
+    return "(let bs := %s in let cd := %s in SL [%s])" % (coq_bytes(data), coq_c_dialect(data), "; ".join(parts)), expected
 
 
 # ---------------------------------------------------------------------------
@@ -428,7 +622,7 @@ def lookup_tables(allow):
 
 def world_header(cfgs):
     from deepdiff.serialization import SAFE_TO_IMPORT
-    lines = ["From DD Require Import Base.PyStr Pickle.Vm Pickle.PickleShow Pickle.PickleProofs.", "Local Open Scope Z_scope."]
+    lines = ["From DD Require Import Base.PyStr Pickle.Vm Pickle.Bytes Pickle.PickleShow Pickle.PickleProofs.", "Local Open Scope Z_scope."]
     for i, (_nm, arg, coq) in enumerate(cfgs):
         allow = effective_allow_py(arg)
         mods, found = lookup_tables(allow)
@@ -1177,6 +1371,41 @@ def coq_sx_lit(x):
     return "(" + core.sx(x) + ")"
 
 
+def coq_world(ci, call_fail=(), build_fail=(), ext=None):
+    cache, registry = ext or ([], [])
+    return "(table_world ALLOW%d MODS%d FOUND%d [%s] [%s] [%s] [%s])" % (
+        ci, ci, ci, "; ".join(coq_sx_lit(x) for x in call_fail), "; ".join(coq_sx_lit(x) for x in build_fail),
+        "; ".join("(%s, OGlobal %s %s %s)" % (core.coq_Z(c), core.coq_pystr(m), core.coq_pystr(n), k) for c, m, n, k in cache),
+        "; ".join("(%s, (%s, %s))" % (core.coq_Z(c), core.coq_pystr(m), core.coq_pystr(n)) for c, m, n in registry))
+
+
+def direct_oracle(ctx, case, res, doc_allow, ext=None):
+    """The property on one real load (independent of the model): find_class never returns for a non-member, the
+    lookup of a non-member ends the load with ForbiddenModule and is the last lookup, the forbidden sentinel module
+    is untouched, persistent ids produce nothing but NoneType / None."""
+    for m, n, returned in res["calls"]:
+        member = ("%s.%s" % (m, n)) in doc_allow
+        if returned and not member:
+            ctx.fail(dict(case, resolved=[m, n]), "pickle_load resolved the global %s.%s which is not on the allow-list" % (m, n))
+        if not member and res["exc"] != "ForbiddenModule":
+            ctx.fail(dict(case, looked_up=[m, n], outcome=res["exc"] or "ok"),
+                     "a lookup of the forbidden global %s.%s did not end the load with ForbiddenModule" % (m, n))
+    nm = [(m, n) for m, n, _r in res["calls"] if ("%s.%s" % (m, n)) not in doc_allow]
+    if nm and (res["calls"][-1][0], res["calls"][-1][1]) != nm[0]:
+        ctx.fail(dict(case, looked_up=list(nm[0])), "the load went on after the lookup of a forbidden global")
+    if FLAGS["touched"] or FLAGS["called"]:
+        ctx.fail(dict(case, touched=FLAGS["touched"][:5], called=FLAGS["called"][:5], ext=bool(ext)),
+                 "a module none of whose names is allowed was touched while loading (attribute access: %r, calls: %r)" % (
+                     FLAGS["touched"][:3], FLAGS["called"][:3]))
+    # a persistent id is not a second way to name a global: only "<<NoneType>>" means anything
+    for pid, got in res["pids"]:
+        ctx.count("prog:persistent-id")
+        want_nonetype = type(pid) is str and pid == "<<NoneType>>"
+        if (want_nonetype and got is not type(None)) or (not want_nonetype and got is not None):
+            ctx.fail(dict(case, persistent_id=repr(pid), produced=repr(got)),
+                     "persistent_load(%r) produced %r: a persistent id resolved an object outside the allow-list mechanism" % (pid, got))
+
+
 def program_case(ctx, ci, cfg, ops, call_fail, build_fail, with_value, tag, ext=None):
     """Run one program on the implementation (direct oracle) and build the
     correspondence case.  ext = (cache, registry) describing copyreg state."""
@@ -1192,29 +1421,7 @@ def program_case(ctx, ci, cfg, ops, call_fail, build_fail, with_value, tag, ext=
     case = dict(tag, config=cname, safe_to_import=repr(arg), bytes_hex=data.hex(), ops=[list(o) if not isinstance(o[-1], bytes) else [o[0], o[1].hex()] for o in ops])
     looked = bool(res["calls"])
     ctx.seen((cname, data), nontrivial=looked)
-    # ---- direct oracle -------------------------------------------------
-    if True:
-        for m, n, returned in res["calls"]:
-            member = ("%s.%s" % (m, n)) in doc_allow
-            if returned and not member:
-                ctx.fail(dict(case, resolved=[m, n]), "pickle_load resolved the global %s.%s which is not on the allow-list" % (m, n))
-            if not member and res["exc"] != "ForbiddenModule":
-                ctx.fail(dict(case, looked_up=[m, n], outcome=res["exc"] or "ok"),
-                         "a lookup of the forbidden global %s.%s did not end the load with ForbiddenModule" % (m, n))
-        nm = [(m, n) for m, n, _r in res["calls"] if ("%s.%s" % (m, n)) not in doc_allow]
-        if nm and (res["calls"][-1][0], res["calls"][-1][1]) != nm[0]:
-            ctx.fail(dict(case, looked_up=list(nm[0])), "the load went on after the lookup of a forbidden global")
-    if FLAGS["touched"] or FLAGS["called"]:
-        ctx.fail(dict(case, touched=FLAGS["touched"][:5], called=FLAGS["called"][:5], ext=bool(ext)),
-                 "a module none of whose names is allowed was touched while loading (attribute access: %r, calls: %r)" % (
-                     FLAGS["touched"][:3], FLAGS["called"][:3]))
-    # a persistent id is not a second way to name a global: only "<<NoneType>>" means anything
-    for pid, got in res["pids"]:
-        ctx.count("prog:persistent-id")
-        want_nonetype = type(pid) is str and pid == "<<NoneType>>"
-        if (want_nonetype and got is not type(None)) or (not want_nonetype and got is not None):
-            ctx.fail(dict(case, persistent_id=repr(pid), produced=repr(got)),
-                     "persistent_load(%r) produced %r: a persistent id resolved an object outside the allow-list mechanism" % (pid, got))
+    direct_oracle(ctx, case, res, doc_allow, ext)
     # the same bytes through the public entry points Delta(bytes) / delta_path / delta_file
     if tag.get("via_delta"):
         from deepdiff import Delta
@@ -1247,28 +1454,17 @@ def program_case(ctx, ci, cfg, ops, call_fail, build_fail, with_value, tag, ext=
             if FLAGS["touched"] or FLAGS["called"]:
                 ctx.fail(dict(case, entry=kind, touched=FLAGS["touched"][:5], called=FLAGS["called"][:5], ext=bool(ext)),
                          "Delta(%s) touched a module none of whose names is allowed" % kind)
-    # ---- correspondence case ----------------------------------------------
-    failing = None
-    if res["calls"] and not res["calls"][-1][2]:     # the exception came out of find_class
-        failing = [res["calls"][-1][0], res["calls"][-1][1]]
-    resolved = [[m, n] for m, n, r in res["calls"] if r]
-    value = None
-    wv = False
-    if with_value and res["cls"] == "ok":
-        try:
-            value = canon_real(res["result"], res["objs"])
-            wv = True
-        except LookupError:
-            wv = False
-    expected = [res["cls"], failing, resolved, value if wv else None]
-    cache, registry = ext or ([], [])
-    w = "(table_world ALLOW%d MODS%d FOUND%d [%s] [%s] [%s] [%s])" % (
-        ci, ci, ci, "; ".join(coq_sx_lit(x) for x in call_fail), "; ".join(coq_sx_lit(x) for x in build_fail),
-        "; ".join("(%s, OGlobal %s %s %s)" % (core.coq_Z(c), core.coq_pystr(m), core.coq_pystr(n), k) for c, m, n, k in cache),
-        "; ".join("(%s, (%s, %s))" % (core.coq_Z(c), core.coq_pystr(m), core.coq_pystr(n)) for c, m, n in registry))
-    expr = "sx_result %s (vm_run %s %s)" % ("true" if wv else "false", w, prog_coq(ops))
+    # ---- correspondence case: the BYTES go to the model (decoded by Pickle/Bytes.v as the C unpickler reads
+    # them, then run on the machine); the same bytes decoded as pickletools.genops reads them -----------------
+    obs, wv = real_obs(res, with_value)
+    w = coq_world(ci, call_fail, build_fail, ext)
+    expr, expected = bytes_expr(data, w, obs, wv, True, res["exc"], noskip=True)
     ctx.count("prog:outcome:" + res["cls"])
+    ctx.count("bytes:genops:" + expected[0][0])
     return (expr, expected, case)
+
+
+PROGRAM_BYTES = []
 
 
 def programs_part(ctx, cfgs, n_programs):
@@ -1303,6 +1499,8 @@ def programs_part(ctx, cfgs, n_programs):
         c = program_case(ctx, ci, cfg, ops, call_fail, build_fail, with_value, tag)
         if c is None:
             continue
+        if not mutated and len(PROGRAM_BYTES) < 400:
+            PROGRAM_BYTES.append(bytes.fromhex(c[2]["bytes_hex"]))
         ctx.count("prog:proto%d" % proto)
         ctx.count("prog:mutated" if mutated else "prog:wellformed")
         ctx.count("prog:with_calls" if not with_value else "prog:data_and_globals")
@@ -1313,6 +1511,193 @@ def programs_part(ctx, cfgs, n_programs):
             ctx.sample({"config": cfg[0], "proto": proto, "ops": [list(map(repr, o)) for o in ops][:40], "expected": c[1]})
         cases.append(c)
     ctx.coq_cases("c15_programs", world_header(cfgs), cases, shard=150, label="programs")
+
+
+# ---------------------------------------------------------------------------
+# mutated BYTES: bit flips, truncations, deletions, spliced opcodes, on hand-assembled programs and on what
+# CPython's pickler / Delta.dumps() write
+# ---------------------------------------------------------------------------
+
+def _le(n, k):
+    return int(n).to_bytes(k, "little")
+
+
+SPLICE = [b"c" + BAD.encode() + b"\nboom\n", b"cbuiltins\nint\n", b"cos\nsystem\n", b"\x8c\x02os", b"\x8c\x06system", b"\x8c\x08builtins",
+          b"\x8c\x03int", b"\x93", b"R", b")", b"(", b"t", b"\x85", b"\x81", b"\x92", b"b", b"o", b"i" + BAD.encode() + b"\nCls\n",
+          b"ibuiltins\nlist\n", b"\x95" + _le(0, 8), b"\x95" + _le(3, 8), b"\x95" + _le(40, 8), b"\x95" + _le(2 ** 63, 8),
+          b"I01\n", b"I00\n", b"I7\n", b"I0x10\n", b"I 1\n", b"I-0\n", b"I017\n", b"L5L\n", b"L-12\n", b"L0x1fL\n", b"F1.5\n", b"Finf\n",
+          b"F 1\n", b"F1e400\n", b"g0\n", b"g 1\n", b"p1\n", b"p007\n", b"p-1\n", b"S'a'\n", b"S\"os\"\n", b"S'a\\x41'\n", b"Sab\n",
+          b"T\x02\x00\x00\x00os", b"T\xff\xff\xff\xffa", b"U\x02os", b"U\x01\xe9", b"Vos\n", b"V\\u0041b\n", b"V\\u00\n", b"X\x02\x00\x00\x00os",
+          b"\x8d" + _le(2, 8) + b"os", b"\x8d" + _le(2 ** 63, 8), b"B\x01\x00\x00\x00a", b"C\x02ab", b"\x8e" + _le(1, 8) + b"a",
+          b"\x96" + _le(2, 8) + b"ab", b"\x96" + _le(2 ** 40, 8), b"\x97", b"\x98", b"P<<NoneType>>\n", b"Pos.system\n", b"P\xe9\n", b"Q",
+          b"\x82\x00", b"\x82\x05", b"\x83\x01\x00", b"\x84\xff\xff\xff\xff", b"\x8a\x02\x00\x01", b"\x8b\x01\x00\x00\x00\x7f",
+          b"\x8b\xff\xff\xff\xff", b"\x80\x05", b"\x80\x06", b"\x94", b"h\x00", b"h\x01", b"q\x00", b"j\x00\x00\x00\x00", b"r\x01\x00\x00\x00",
+          b"0", b"1", b"2", b".", b"N", b"\x88", b"\x89", b"]", b"}", b"\x8f", b"a", b"e", b"s", b"u", b"\x90", b"\x91", b"l", b"d",
+          b"\x86", b"\x87", b"J\xff\xff\xff\x7f", b"K\x01", b"M\x01\x02", b"G\x3f\xf8\x00\x00\x00\x00\x00\x00", b"\xff", b"\x00", b"\n"]
+
+
+def mutate_bytes(rng, data, others):
+    b = bytearray(data)
+    for _ in range(rng.choice([1, 1, 1, 2, 2, 3])):
+        k = rng.random()
+        if k < 0.14:
+            # re-framing: an existing FRAME gets another length / a FRAME header is put somewhere, so that opcode
+            # arguments, lines and payloads straddle the end of the frame (the C unpickler then drops what is left
+            # of the frame buffer, or - for bytes payloads - reads on in the file)
+            qs = [i for i, x in enumerate(b) if x == 0x95 and i + 9 <= len(b)]
+            if qs and rng.random() < 0.6:
+                q = rng.choice(qs)
+            else:
+                q = rng.randint(0, len(b))
+                b[q:q] = b"\x95" + bytes(8)
+            left = len(b) - q - 9
+            n = rng.choice([0, 1, 2, 3, 4, 5, 7, 9, 12, 17, max(0, left - 1), max(0, left - 2), max(0, left // 2), left, left + 1])
+            b[q + 1:q + 9] = _le(n, 8)
+        elif k < 0.38 and b:
+            b[rng.randrange(len(b))] ^= 1 << rng.randrange(8)
+        elif k < 0.46 and b:
+            del b[rng.randrange(len(b)):]
+        elif k < 0.5 and b:
+            i = rng.randrange(len(b))
+            del b[i:i + rng.randint(1, 4)]
+        elif k < 0.72:
+            i = rng.randint(0, len(b))
+            b[i:i] = rng.choice(SPLICE)
+        elif k < 0.8 and b:
+            b[rng.randrange(len(b))] = rng.randrange(256)
+        elif k < 0.9 and others:
+            o = rng.choice(others)
+            i, j = sorted((rng.randint(0, len(o)), rng.randint(0, len(o))))
+            p = rng.randint(0, len(b))
+            b[p:p] = o[i:j]
+        elif b:
+            i, j = sorted((rng.randint(0, len(b)), rng.randint(0, len(b))))
+            b[j:j] = b[i:j]
+    return bytes(b[:600])
+
+
+def resource_hungry(data):
+    """a stream that makes the unpickler allocate (and zero) hundreds of megabytes: an explicit memo index above 2^20
+    (the memo is an array grown to twice the index) or a bytes / bytearray length above 2^27.  Such streams are not
+    generated (cost); the model itself stops with OutOfModel above MEMO_MAX = 2^26"""
+    try:
+        for opc, arg, _pos in pickletools.genops(data):
+            if opc.name in ("PUT", "BINPUT", "LONG_BINPUT") and isinstance(arg, int) and arg > 2 ** 20:
+                return True
+    except Exception:  # noqa
+        pass
+    for i, b in enumerate(data):
+        if b in (0x8e, 0x96) and i + 9 <= len(data) and 2 ** 27 < int.from_bytes(data[i + 1:i + 9], "little") < 2 ** 40:
+            return True
+    return False
+
+
+class _MemLimit:
+    """an address-space ceiling while a mutated stream is loaded (a flipped length or a flipped argument of an
+    allow-listed constructor may ask for gigabytes); stderr is parked (CPython prints 'SystemError: deallocated
+    bytearray object has exported buffers' as an unraisable error when a BYTEARRAY8 payload is cut short)"""
+    def __enter__(self):
+        import resource
+        sys.stderr.flush()
+        self.err = os.dup(2)
+        self.null = os.open(os.devnull, os.O_WRONLY)
+        os.dup2(self.null, 2)
+        self.res = resource
+        self.old = resource.getrlimit(resource.RLIMIT_AS)
+        try:
+            with open("/proc/self/statm") as f:
+                cur = int(f.read().split()[0]) * os.sysconf("SC_PAGE_SIZE")
+            resource.setrlimit(resource.RLIMIT_AS, (cur + (3 << 30), self.old[1]))
+        except (OSError, ValueError):
+            pass
+
+    def __exit__(self, *a):
+        try:
+            self.res.setrlimit(self.res.RLIMIT_AS, self.old)
+        except (OSError, ValueError):
+            pass
+        os.dup2(self.err, 2)
+        os.close(self.err)
+        os.close(self.null)
+
+
+def real_dump_sources():
+    """dumps of CPython's pickler, all protocols, and of Delta.dumps()"""
+    import collections
+    import datetime
+    import decimal
+    from deepdiff import DeepDiff, Delta
+    from deepdiff.helper import Opcode, SetOrdered
+    shared = [1, 2]
+    objs = [{"a": [1, 2.5, -3, 2 ** 40, -2 ** 70], "b": ("xé中", b"\x00\xff", None, True), "s": {1, 2}, "f": frozenset([3]), "t": int},
+            [shared, shared, {"k": shared}], (1, (2, (3, ()))), {"d": decimal.Decimal("1.5"), "t": datetime.timedelta(1, 5)},
+            collections.OrderedDict([("a", 1)]), [Opcode("insert", 0, 0, 0, 1, None, [1]), SetOrdered([1, 2])], "plain", 10 ** 30,
+            {"values_changed": {"root['a']": {"new_value": 2, "old_value": 1}}, "type_changes": {"root[1]": {"old_type": int, "new_type": str}}},
+            [bytearray(b"ab"), 1.5, float("inf")], type(None), [list, dict, set, (str, bytes)]]
+    out = []
+    for o in objs:
+        for p in range(6):
+            try:
+                out.append(pickle.dumps(o, protocol=p))
+            except Exception:  # noqa
+                pass
+    pairs = [([1, 2, 3], [1, 4, 3, 5]), ({"a": 1, "b": {2, 3}}, {"a": "1", "b": {3, 4}, "c": None}), ((1, "x"), (1, "y", 2.5)),
+             ({"k": [1, 2, 3, 4]}, {"k": [9, 8, 1, 2, 3, 4]}), ({"n": None}, {"n": 1})]
+    for t1, t2 in pairs:
+        for bid in (False, True):
+            try:
+                out.append(Delta(DeepDiff(t1, t2), bidirectional=bid).dumps())
+                out.append(Delta(DeepDiff(t1, t2, ignore_order=True), bidirectional=bid).dumps())
+            except Exception:  # noqa
+                pass
+    return out
+
+
+def bytes_part(ctx, cfgs, n_streams, program_bytes):
+    """(a) every real dump as it is: genops and the C-dialect decoder must agree, no frame byte is skipped, the load
+    gives what the model computes; (b) mutated streams: decoding against genops (raises <-> no STOP reached), verdict of
+    the machine on the raw bytes against pickle_load (full comparison when the model's run does not depend on a call /
+    build oracle, otherwise the names resolved before the first call), direct oracle on all of them."""
+    rng = ctx.rng
+    cases = []
+    dumps = real_dump_sources()
+    ci0 = 0
+    for k, data in enumerate(dumps):
+        res = real_load(data, cfgs[ci0][1])
+        case = {"kind": "bytes", "what": "real dump", "config": cfgs[ci0][0], "bytes_hex": data.hex()}
+        ctx.seen(("bytes", cfgs[ci0][0], data), nontrivial=bool(res["calls"]))
+        direct_oracle(ctx, case, res, effective_allow_py(cfgs[ci0][1]))
+        obs, wv = real_obs(res, True)
+        expr, expected = bytes_expr(data, coq_world(ci0), obs, wv, False, res["exc"], noskip=True)
+        ctx.count("bytes:real-dump")
+        cases.append((expr, expected, case))
+    pool = dumps + program_bytes
+    for i in range(n_streams):
+        ci = rng.randrange(len(cfgs))
+        cfg = cfgs[ci]
+        src = rng.choice(dumps) if rng.random() < 0.45 else rng.choice(program_bytes or dumps)
+        data = mutate_bytes(rng, src, pool)
+        if resource_hungry(data):
+            ctx.count("bytes:not-generated(resource-hungry)")
+            continue
+        FLAGS["touched"].clear()
+        FLAGS["called"].clear()
+        with _MemLimit():
+            res = real_load(data, cfg[1])
+        case = {"kind": "bytes", "what": "mutated", "config": cfg[0], "safe_to_import": repr(cfg[1]), "bytes_hex": data.hex()}
+        ctx.seen(("bytes", cfg[0], data), nontrivial=bool(res["calls"]))
+        direct_oracle(ctx, case, res, effective_allow_py(cfg[1]))
+        obs, wv = real_obs(res, True)
+        expr, expected = bytes_expr(data, coq_world(ci), obs, wv, False, res["exc"])
+        ctx.count("bytes:mutated")
+        ctx.count("bytes:mutated:outcome:" + res["cls"])
+        ctx.count("bytes:mutated:genops:" + expected[0][0])
+        if res["calls"]:
+            ctx.count("bytes:mutated:with-lookups")
+        if any(o[0] in ("REDUCE", "NEWOBJ", "NEWOBJ_EX", "OBJ", "INST", "BUILD") for o in expected[0][1]):
+            ctx.count("bytes:mutated:with-call-opcodes(at most these are compared up to the first call only)")
+        cases.append((expr, expected, case))
+    ctx.coq_cases("c15_bytes", world_header(cfgs), cases, shard=120, label="raw bytes (real dumps, mutated streams)")
 
 
 # ---------------------------------------------------------------------------
@@ -1376,7 +1761,7 @@ def fixed_programs(ctx, cfgs):
         if c:
             cases.append(c)
             ctx.note("ext_cache_witness", {"expected_model_and_impl": c[1]})
-            if c[1][0] != "ok":
+            if c[1][1][0] != "ok":
                 ctx.break_("correspondence", {"name": "ext-cache", "detail": "the known finding C15-EXT-CACHE no longer reproduces: "
                                               "the model (and the _refuted theorem) is out of date", "observed": c[1]})
     finally:
@@ -1569,6 +1954,7 @@ def run(ctx):
         fixed_programs(ctx, cfgs)
         own_dumps_part(ctx)
         programs_part(ctx, cfgs, 12000 if ctx.thorough else 2400)
+        bytes_part(ctx, cfgs, 8000 if ctx.thorough else 1200, PROGRAM_BYTES)
     finally:
         remove_sentinels()
 
